@@ -103,10 +103,13 @@ class Ctx:
         shutil.rmtree(md, ignore_errors=True)
         gen = dist = 0
         tail = []
+        errs = []
         with open(outp, errors='replace') as f:
             for line in f:
                 if line.startswith('"@'):
                     continue
+                if line.startswith('Error:') and len(errs) < 12:
+                    errs.append(line)
                 tail.append(line)
                 if len(tail) > 400:
                     tail.pop(0)
@@ -120,9 +123,9 @@ class Ctx:
         if not ok or p.returncode != 0:
             keep = os.path.join(EVID, 'tlc-error-%s-%s.txt' % (self.pid, name))
             os.makedirs(EVID, exist_ok=True)
-            open(keep, 'w').write(txt[-20000:])
-            raise Inconclusive('TLC reported an error on the SPEC (%s, rc=%d); output kept in %s\n%s'
-                               % (name, p.returncode, keep, txt[-1500:]))
+            open(keep, 'w').write(''.join(errs) + '\n...\n' + txt[-20000:])
+            raise Inconclusive('TLC reported an error on the SPEC (%s, rc=%d); output kept in %s\n%s%s'
+                               % (name, p.returncode, keep, ''.join(errs[:3]), txt[-800:]))
         r = dict(module=name, out=outp, generated=gen, distinct=dist, wall_s=round(wall, 1))
         self.tlc_runs.append(r)
         return r
